@@ -448,3 +448,172 @@ Proof.
   apply sr_reads_spec. exists p. cbn [br_rest br_block app]. split; [|reflexivity].
   rewrite <- Hc at 1. rewrite blocks_spec by assumption. rewrite <- Hc. apply rep_blocks; assumption.
 Qed.
+
+(* ------------------------------------------------------------------ *)
+(* single bit flips                                                     *)
+
+Lemma flip_bit_length l i : length (flip_bit l i) = length l.
+Proof.
+  unfold flip_bit. rewrite app_length, firstn_length.
+  destruct (skipn (i / 8) l) as [|b r] eqn:E.
+  - apply (f_equal (@length N)) in E. rewrite skipn_length in E. cbn [length] in *. lia.
+  - apply (f_equal (@length N)) in E. rewrite skipn_length in E. cbn [length] in *. lia.
+Qed.
+
+Lemma flip_bit_app_l a b i : (i / 8 < length a)%nat -> flip_bit (a ++ b) i = flip_bit a i ++ b.
+Proof.
+  intros H. unfold flip_bit. rewrite firstn_app, skipn_app.
+  replace (i / 8 - length a)%nat with 0%nat by lia. rewrite firstn_O, skipn_O, app_nil_r.
+  destruct (skipn (i / 8) a) as [|x r] eqn:E.
+  - apply (f_equal (@length N)) in E. rewrite skipn_length in E. cbn [length] in E. lia.
+  - cbn [app]. rewrite <- app_assoc. reflexivity.
+Qed.
+
+Lemma flip_bit_app_r a b i : (length a <= i / 8)%nat ->
+  flip_bit (a ++ b) i = a ++ flip_bit b (i - 8 * length a).
+Proof.
+  intros H. unfold flip_bit. rewrite firstn_app, skipn_app.
+  rewrite firstn_all2, skipn_all2 by lia. cbn [app].
+  replace ((i - 8 * length a) / 8)%nat with (i / 8 - length a)%nat.
+  2:{ replace i with ((i - 8 * length a) + length a * 8)%nat at 1 by lia.
+      rewrite Nat.div_add by lia. lia. }
+  replace ((i - 8 * length a) mod 8)%nat with (i mod 8)%nat.
+  2:{ replace i with ((i - 8 * length a) + length a * 8)%nat at 1 by lia.
+      rewrite Nat.mod_add by lia. reflexivity. }
+  rewrite <- app_assoc. reflexivity.
+Qed.
+
+Lemma flip_bit_inside l i : (i / 8 < length l)%nat ->
+  exists pre x post, l = pre ++ x :: post /\
+    flip_bit l i = pre ++ N.lxor x (2 ^ N.of_nat (i mod 8)) :: post.
+Proof.
+  intros H. unfold flip_bit. destruct (skipn (i / 8) l) as [|x r] eqn:E.
+  - apply (f_equal (@length N)) in E. rewrite skipn_length in E. cbn [length] in E. lia.
+  - exists (firstn (i / 8) l), x, r. split; [|reflexivity].
+    rewrite <- E. symmetry. apply firstn_skipn.
+Qed.
+
+Lemma mod8_lt i : N.of_nat (i mod 8) < 8.
+Proof. pose proof (Nat.mod_upper_bound i 8). lia. Qed.
+
+Lemma crc_bytes_inj a b : wf_bytes a -> wf_bytes b -> crc_bytes a = crc_bytes b -> crc32 a = crc32 b.
+Proof.
+  intros Ha Hb H. unfold crc_bytes in H.
+  rewrite <- (be_dec_be 4 (crc32 a)), <- (be_dec_be 4 (crc32 b)), H; [reflexivity| |];
+    change (256 ^ N.of_nat 4) with (2 ^ 32); apply crc32_lt; assumption.
+Qed.
+
+Lemma wf_bytes_app a b : wf_bytes (a ++ b) <-> wf_bytes a /\ wf_bytes b.
+Proof. apply Forall_app. Qed.
+
+Lemma validate_block_flip b i : wf_bytes b -> (i / 8 < length (enc_block b))%nat ->
+  validate_block (flip_bit (enc_block b) i) = false.
+Proof.
+  intros Hw Hi. unfold validate_block. rewrite flip_bit_length, enc_block_length, csz_eq.
+  destruct (Nat.leb_spec (length b + 4) 4) as [|Hb]; [reflexivity|].
+  replace (length b + 4 - 4)%nat with (length b) by lia.
+  unfold enc_block in *. rewrite app_length, crc_bytes_length in Hi.
+  apply not_true_is_false. intros Heq. apply bytes_eqb_eq in Heq.
+  destruct (Nat.lt_ge_cases (i / 8) (length b)) as [Hin|Hout].
+  - (* data bit *)
+    rewrite flip_bit_app_l in Heq by exact Hin.
+    assert (HL : length (flip_bit b i) = length b) by apply flip_bit_length.
+    rewrite skipn_app, firstn_app, <- HL, Nat.sub_diag, skipn_all, skipn_O, firstn_all, firstn_O, app_nil_r in Heq.
+    cbn [app] in Heq.
+    destruct (flip_bit_inside b i Hin) as (pre & x & post & Eb & Ef).
+    rewrite Ef in Heq. rewrite Eb in Heq at 1.
+    rewrite Eb in Hw. apply wf_bytes_app in Hw as [Hpre Hw]. inversion Hw as [|? ? Hx Hpost]; subst.
+    pose proof (lxor_pow2_byte x _ Hx (mod8_lt i)) as Hx'.
+    apply crc_bytes_inj in Heq.
+    + revert Heq. apply crc32_single_byte_detected; auto.
+      intros E. symmetry in E. exact (lxor_pow2_neq _ _ E).
+    + apply wf_bytes_app. split; [exact Hpre|constructor; assumption].
+    + apply wf_bytes_app. split; [exact Hpre|constructor; assumption].
+  - (* checksum bit *)
+    rewrite flip_bit_app_r in Heq by exact Hout.
+    rewrite skipn_app, firstn_app, Nat.sub_diag, skipn_all, skipn_O, firstn_all, firstn_O, app_nil_r in Heq.
+    cbn [app] in Heq.
+    assert (Hin : ((i - 8 * length b) / 8 < length (crc_bytes b))%nat).
+    { rewrite crc_bytes_length.
+      replace i with ((i - 8 * length b) + length b * 8)%nat in Hi at 1 by lia.
+      rewrite Nat.div_add in Hi by lia. lia. }
+    destruct (flip_bit_inside _ _ Hin) as (pre & x & post & Eb & Ef).
+    rewrite Ef in Heq. rewrite Eb in Heq.
+    apply app_inv_head in Heq. inversion Heq as [E]. exact (lxor_pow2_neq _ _ E).
+Qed.
+
+Lemma rep_flip bs rest av bad : rep bs rest av bad -> bad = false -> wf_bytes av ->
+  forall i, (i / 8 < length rest)%nat ->
+  exists av1 av2, av = av1 ++ av2 /\ rep bs (flip_bit rest i) av1 true.
+Proof.
+  induction 1 as [|b Hb|tl Hne Hv|b rest av bad Hb0 Hb Hrep IH]; intros Hbad Hw i Hi.
+  - cbn in Hi. lia.
+  - exists [], b. split; [reflexivity|]. apply rep_bad.
+    + intros E. apply (f_equal (@length N)) in E. rewrite flip_bit_length, enc_block_length in E. cbn in E. lia.
+    + rewrite firstn_all2 by (rewrite flip_bit_length, enc_block_length, csz_eq; lia).
+      apply validate_block_flip; assumption.
+  - discriminate.
+  - apply wf_bytes_app in Hw as [Hwb Hwav].
+    destruct (Nat.lt_ge_cases (i / 8) (length (enc_block b))) as [Hin|Hout].
+    + exists [], (b ++ av). split; [reflexivity|]. rewrite flip_bit_app_l by exact Hin. apply rep_bad.
+      * intros E. apply (f_equal (@length N)) in E.
+        rewrite app_length, flip_bit_length, enc_block_length in E. cbn in E. lia.
+      * assert (HL : (csz + bs)%nat = length (flip_bit (enc_block b) i))
+          by (rewrite flip_bit_length, enc_block_length, csz_eq; lia).
+        rewrite HL, firstn_app, Nat.sub_diag, firstn_all, firstn_O, app_nil_r.
+        apply validate_block_flip; assumption.
+    + rewrite flip_bit_app_r by exact Hout.
+      destruct (IH Hbad Hwav (i - 8 * length (enc_block b))%nat) as (av1 & av2 & Eav & Hrep').
+      * rewrite app_length in Hi.
+        replace i with ((i - 8 * length (enc_block b)) + length (enc_block b) * 8)%nat in Hi at 1 by lia.
+        rewrite Nat.div_add in Hi by lia. lia.
+      * exists (b ++ av1), av2. split; [rewrite Eav, app_assoc; reflexivity|].
+        apply rep_cons; assumption.
+Qed.
+
+Lemma agree_cons x t' t : agree_until_panic t' t -> agree_until_panic (x :: t') (x :: t).
+Proof.
+  intros [->|(k & ->)]; [left; reflexivity|]. right. exists (S k). reflexivity.
+Qed.
+
+Lemma spec_reads_agree reads : forall av1 av2,
+  agree_until_panic (spec_reads av1 true reads) (spec_reads (av1 ++ av2) false reads).
+Proof.
+  induction reads as [|n reads IH]; intros av1 av2; [left; reflexivity|].
+  cbn [spec_reads]. rewrite app_length.
+  destruct (Nat.leb_spec n (length av1)) as [Hle|Hgt].
+  - destruct (Nat.leb_spec n (length av1 + length av2)); [|lia].
+    rewrite firstn_app, skipn_app. replace (n - length av1)%nat with 0%nat by lia.
+    rewrite firstn_O, skipn_O, app_nil_r. apply agree_cons, IH.
+  - right. exists 0%nat. reflexivity.
+Qed.
+
+Theorem single_bit_flip_body_proved bs p reads i : (0 < bs)%nat -> wf_bytes p ->
+  agree_until_panic
+    (fst (sr_reads bs (v2_reader (flip_bit (file_body bs p) i)) reads))
+    (fst (sr_reads bs (v2_reader (file_body bs p)) reads)).
+Proof.
+  intros Hbs Hw. rewrite (read_write_roundtrip_proved bs p reads Hbs).
+  destruct (split_blocks bs p Hbs) as (F & r & HF & Hr & Hc).
+  assert (Hrep : rep bs (enc_blocks (blocks bs p)) p false).
+  { rewrite <- Hc at 1. rewrite blocks_spec by assumption. rewrite <- Hc. apply rep_blocks; assumption. }
+  unfold file_body. set (E := enc_blocks (blocks bs p)) in *.
+  destruct (Nat.lt_ge_cases (i / 8) (length E)) as [Hin|Hout].
+  - rewrite flip_bit_app_l by exact Hin.
+    destruct (rep_flip bs E p false Hrep eq_refl Hw i Hin) as (av1 & av2 & Ep & Hrep').
+    replace (v2_reader (flip_bit E i ++ file_tail (nlen E))) with (v2sr (mkBR (flip_bit E i) [])).
+    2:{ unfold v2_reader, v2sr. f_equal. f_equal.
+        rewrite app_length, file_tail_length, tsz_eq.
+        replace (length (flip_bit E i) + 16 - 16)%nat with (length (flip_bit E i)) by lia.
+        rewrite firstn_app, Nat.sub_diag, firstn_all, firstn_O, app_nil_r. reflexivity. }
+    rewrite (sr_reads_spec bs reads _ av1 true).
+    + rewrite Ep. apply spec_reads_agree.
+    + exists av1. cbn [br_rest br_block app]. split; [exact Hrep'|reflexivity].
+  - left. rewrite flip_bit_app_r by exact Hout.
+    replace (v2_reader (E ++ flip_bit (file_tail (nlen E)) (i - 8 * length E))) with (v2sr (mkBR E [])).
+    2:{ unfold v2_reader, v2sr. f_equal. f_equal.
+        rewrite app_length, flip_bit_length, file_tail_length, tsz_eq.
+        replace (length E + 16 - 16)%nat with (length E) by lia.
+        rewrite firstn_app, Nat.sub_diag, firstn_all, firstn_O, app_nil_r. reflexivity. }
+    apply sr_reads_spec. exists p. cbn [br_rest br_block app]. split; [exact Hrep|reflexivity].
+Qed.
